@@ -64,7 +64,7 @@ package core
 //@   assert at call activeList.pushFront :: forall i int :: 0 <= i && i < p.active.count ==> qnth_local(old(heap(poolConn.next)), heap(poolConn.next), p.active.front, i) && an(p.active, i) == old(an(p.active, i))
 //@   ensures[wf] pwf(p)
 //@   ensures[tracked@C10,C15] result != nil ==> tracked(p, result)
-//@   ensures[live@C04,C10] result != nil ==> okc(result) && live(result)
+//@   ensures[live@C04,C10,C15] result != nil ==> okc(result) && live(result)
 //@   ensures[others] forall c *conn :: !fresh(c) ==> c.opened == old(c.opened)
 //@   ensures[reuse@C10] (old(p.active.count) == 1 && p.maxActive == 1 && !p.closed && ref(conn, old(anp(p.active, 0).c)).opened) ==> result == old(anp(p.active, 0).c) && p.active.count == 1
 //@   loop 0
